@@ -160,6 +160,33 @@ Theorem C12_source_unchanged : forall l tgt ver, fst (convert_io l tgt ver) = l 
 Proof. intros l tgt ver. split; reflexivity. Qed.
 Print Assumptions C12_source_unchanged.
 
+(* the result is USED. Its point format lists the standard dimensions of the target followed by the extra dimensions of the
+   source; every listed name resolves; a standard name to the standard dimension; the name of every extra dimension of the
+   source (not shadowed by a standard dimension of the target) to THAT extra dimension, descriptor (type, scales, offsets)
+   included - so that a scaled extra dimension is presented scaled and takes scaled values on the result as on the source *)
+Theorem C12_names_resolve : forall l tgt ver l', convert l tgt ver = Ok l' -> wf_las l ->
+  listed_names l' = dim_names (l_fmt l') ++ map ed_name (l_edims l)
+  /\ (forall n, In n (listed_names l') -> resolve (l_fmt l') (l_edims l') n <> None)
+  /\ (forall n, In n (dim_names (l_fmt l')) -> resolve (l_fmt l') (l_edims l') n = Some RStd)
+  /\ (forall e, In e (l_edims l) -> ~ In (ed_name e) (dim_names (l_fmt l')) ->
+        resolve (l_fmt l') (l_edims l') (ed_name e) = Some (RExt e)).
+Proof. exact convert_resolve. Qed.
+Print Assumptions C12_names_resolve.
+
+(* ... and what record[name] of every point is computed from (the descriptor found under the name, the stored bytes) is, for
+   EVERY name, what the source gives; every extra dimension of the source is found under its name in the result *)
+Theorem C12_extra_dims_by_name : forall l tgt ver l' i da db, convert l tgt ver = Ok l' -> wf_las l -> (i < length (l_pts l))%nat ->
+  (forall n, ext_value (l_edims l') (nth i (l_pts l') db) n = ext_value (l_edims l) (nth i (l_pts l) da) n)
+  /\ (forall e, In e (l_edims l) -> exists b, ext_value (l_edims l') (nth i (l_pts l') db) (ed_name e) = Some (e, b)).
+Proof. exact convert_ext_value. Qed.
+Print Assumptions C12_extra_dims_by_name.
+
+(* VLRs, record by record: whatever a record of the source describes (a waveform packet descriptor although the target format
+   has no wave packets, georeferencing, a lookup table ...) it is a record of the result; only the extra-bytes record is rebuilt *)
+Theorem C12_every_vlr_kept : forall l tgt ver l' v, convert l tgt ver = Ok l' -> In v (l_vlrs l) -> fst v = false -> In v (l_vlrs l').
+Proof. exact convert_vlr_kept. Qed.
+Print Assumptions C12_every_vlr_kept.
+
 Definition ex_src : lasdata :=
   mkLas (1, 4) 6 [mkED "e" [1; 2] 2]
     [ ([("X"%string, -5); ("Y"%string, 7); ("Z"%string, 2147483647); ("intensity"%string, 65535); ("bit_fields"%string, 0x17);
@@ -196,5 +223,9 @@ Example C12_nonvacuous :
   /\ (exists l', convert ex_bad (Some 7) None = Ok l')
   /\ lost 6 0 = ["overlap"%string; "scanner_channel"%string; "scan_angle"%string; "gps_time"%string]
   /\ sub_of 0 "classification" = Some ("raw_classification"%string, 31) /\ sf_max 31 = 31 /\ sub_of 6 "classification" = None
-  /\ sub_of 0 "return_number" = Some ("bit_fields"%string, 7) /\ sf_max 7 = 7 /\ sub_of 6 "return_number" = Some ("bit_fields"%string, 15).
+  /\ sub_of 0 "return_number" = Some ("bit_fields"%string, 7) /\ sf_max 7 = 7 /\ sub_of 6 "return_number" = Some ("bit_fields"%string, 15)
+  /\ resolve 7 (l_edims ex_names) "nir" = Some (RExt (mkED "nir" [5] 4)) /\ resolve 7 (l_edims ex_names) "overlap" = Some RStd
+  /\ resolve 7 (l_edims ex_names) "gps_time" = Some RStd /\ resolve 0 (l_edims ex_names) "overlap" = Some (RExt (mkED "overlap" [1] 1))
+  /\ resolve 7 (l_edims ex_names) "height" = None
+  /\ ext_value (l_edims ex_src) (nth 0 (l_pts ex_src) ([], [])) "e" = Some (mkED "e" [1; 2] 2, [254; 255]).
 Proof. vm_compute. repeat split; try reflexivity; try discriminate; eexists; repeat split; reflexivity. Qed.
